@@ -118,11 +118,13 @@ theorem sort_eq_spec (fs : Fields) (spec : SortSpec) (docs : List Val)
 
 /-! ### `$count`, `$skip`, `$limit` -/
 
-theorem count_eq_spec (s : String) (docs : List Val) (hn : countName s = true) : countStage (.str s) docs = .ok [.doc [(s, .int docs.length)]] := by
+theorem count_eq_spec (s : String) (docs : List Val) (hn : countName s = true) :
+    countStage (.str s) docs =
+      .ok (if docs.isEmpty then [] else [.doc [(s, .int docs.length)]]) := by
   simp only [countName, Bool.and_eq_true, Bool.not_eq_true', decide_eq_true_eq, ne_eq] at hn
   obtain ⟨⟨h1, h2⟩, h3⟩ := hn
   have h3' : '.' ∉ s.toList := by simpa using h3
-  simp [countStage, h1, h2, h3']
+  cases hd : docs.isEmpty <;> simp [countStage, h1, h2, h3', hd]
 
 /-! ### `$unwind` on a top-level field -/
 
@@ -442,11 +444,7 @@ theorem stage_eq_spec (db : Db) (op : String) (opts : Val) (docs s : List Val)
       simp only at hs
       split at hs
       · rename_i hn
-        have hne : docs.isEmpty = false := by
-          cases h : docs.isEmpty with
-          | false => rfl
-          | true => simp [h] at hD
-        simp only [hne, Bool.false_eq_true, if_false, Option.some.injEq] at hs
+        simp only [Option.some.injEq] at hs
         subst hs
         exact count_eq_spec nm docs hn
       · cases hs
